@@ -678,10 +678,11 @@ func (v *Protocol) readBasicHeader() (format formatType, cid chunkID, err error)
 	if err = binary.Read(v.r, binary.BigEndian, &t); err != nil {
 		return format, cid, oe.Wrapf(err, "read basic header for cid=%v", cid)
 	}
+	form := cid
 	cid = chunkID(64 + uint32(t))
 
 	// 64-65599, 3B chunk header
-	if cid == 1 {
+	if form == 1 {
 		if err = binary.Read(v.r, binary.BigEndian, &t); err != nil {
 			return format, cid, oe.Wrapf(err, "read basic header for cid=%v", cid)
 		}
